@@ -3,6 +3,7 @@ use crate::util::{Ctx, Report};
 pub mod c07;
 pub mod c08;
 pub mod c09;
+pub mod c10;
 pub mod c12;
 pub mod c16; pub mod c20;
 pub mod c17;
@@ -12,6 +13,7 @@ pub fn run(prop: &str, ctx: &Ctx, report: &mut Report) {
         "C07" => c07::run(ctx, report),
         "C08" => c08::run(ctx, report),
         "C09" => c09::run(ctx, report),
+        "C10" => c10::run(ctx, report),
         "C12" => c12::run(ctx, report),
         "C16" => c16::run(ctx, report), "C20" => c20::run(ctx, report),
         "C17" => c17::run(ctx, report),
